@@ -253,6 +253,50 @@ pub fn check(ctx: &mut Ctx) {
             None
         });
     }
+    // the decision must not depend on the shape of the element that carries it: inline, block, unwrap-block with and
+    // without inner lines, nested in a pending parent, `to` behind other attributes
+    {
+        let shapes: Vec<(&str, &str, &str)> = vec![
+            ("inline", "A<tl @>X</tl>B", "AB"),
+            ("block", "a\n<tl @>\nx\n</tl>\nb\n", "ab"),
+            ("unwrap-block with inner lines", "a\n<tl @ unwrap-block>\nif (x) {\n  y\n  z\n}\n</tl>\nb\n", "ayzb"),
+            ("unwrap-block with exactly two lines", "a\n<tl @ unwrap-block>\nif (x) {\n}\n</tl>\nb\n", "ab"),
+            ("unwrap-block first, then to", "a\n<tl unwrap-block @>\nif (x) {\n  y\n}\n</tl>\nb\n", "ayb"),
+            ("to behind a bare attribute", "A<tl draft @>X</tl>B", "AB"),
+            ("to behind a quoted attribute", "A<tl c='to' @>X</tl>B", "AB"),
+            ("in a pending parent", "a<rm name='zz'>b<tl @>X</tl>c</rm>d", "a<rmname='zz'>bc</rm>d"),
+            ("in an unregistered parent", "a<div>b<tl @>X</tl>c</div>d", "a<div>bc</div>d"),
+        ];
+        let mut cases: Vec<(String, String, String, TimeCase)> = vec![];
+        for now in [epoch(2024, 2, 29, 0, 0, 0), epoch(2038, 1, 19, 3, 14, 7)] {
+            for d in [-86400i64, -1, 0, 1, 86400] {
+                for (ofs, colon) in [(0i64, true), (9 * 3600, false), (-8 * 3600, true), (5 * 3600 + 45 * 60, true)] {
+                    let c = grid_case(now, d, ofs, colon);
+                    for (name, tmpl, gone) in &shapes {
+                        cases.push((name.to_string(), tmpl.replace('@', &c.to_attr), gone.to_string(), c.clone()));
+                    }
+                }
+            }
+        }
+        let n = cases.len();
+        ctx.exhaustive("element-shapes", &format!("{n} = 2 instants x 5 deltas x 4 offsets x {} element shapes (inline, block, unwrap-block with / without inner lines, attribute orders, nested in pending / unregistered parents)", shapes.len()), vec![cases], |cases, obs| {
+            for (name, src, gone, c) in cases {
+                obs.eval();
+                let cfg = Cfg { ds: "<".into(), de: ">".into(), tl_tag: "tl".into(), rm_tag: "rm".into(), now: c.now, offset: c.offset.clone(), targets: vec![] };
+                let out = match call_clean(src, &cfg) {
+                    Ok(o) => o,
+                    Err(p) => return Some(fail_case("element-shapes", c, format!("clean panicked on {src:?}: {p}"))),
+                };
+                let ok = if c.expect_ready { nows(&out) == *gone } else { out == *src };
+                if !ok {
+                    return Some(fail_case("element-shapes", c, format!("shape '{name}': clean({src:?}) at now = {} UTC, offset {:?} gave {out:?}; the element is {} [{}], so the expected result is {}", wall(c.now, 0), c.offset, if c.expect_ready { "expired" } else { "not expired" }, c.why, if c.expect_ready { format!("{gone:?} (ignoring whitespace)") } else { "the unchanged source".to_string() })));
+                }
+                obs.class(&format!("shape:{name}"));
+                obs.nontrivial_counted(|| json!({"shape": name, "src": src, "now_utc": wall(c.now, 0), "offset": c.offset, "ready": c.expect_ready}));
+            }
+            None
+        });
+    }
     ctx.random(
         "random-instants",
         8,
